@@ -1236,7 +1236,8 @@ pub fn run(w: &mut W) {
         let mut sut = Sut::new(0);
         sut.parsers = make_parsers(&h);
         let mut shape = String::from(h.family);
-        for (p, b) in &h.ops {
+        for (i, (p, b)) in h.ops.iter().enumerate() {
+            h.reconfigure(i, &mut sut);
             let c = match std::panic::catch_unwind(std::panic::AssertUnwindSafe(|| measure(&mut sut, *p, b))) {
                 Ok(c) => c,
                 Err(_) => {
